@@ -47,7 +47,11 @@ func svPreGov(pre *svPropPre) func(e *svEnv) {
 				l.addMirror("propFunds:"+tag+":total", "escrow", "OLT", pm.ProposalFund.GetCurrentFundsForProposal(id).BigInt())
 			}
 		})
-		pre.where = sv.Choice("prop.where", 7)
+		nwhere := 9
+		if svLean {
+			nwhere = 7 // the generic second-batch harnesses leave out the passed / finalised stages
+		}
+		pre.where = sv.Choice("prop.where", nwhere)
 		if pre.where == 0 {
 			return
 		}
@@ -70,12 +74,20 @@ func svPreGov(pre *svPropPre) func(e *svEnv) {
 			p.Status, p.Outcome, state = governance.ProposalStatusCompleted, governance.ProposalOutcomeInsufficientVotes, governance.ProposalStateFailed
 		case 6:
 			p.Status, p.Outcome, state = governance.ProposalStatusCompleted, governance.ProposalOutcomeCompletedNo, governance.ProposalStateFailed
+		case 7: // voted yes: waits in the passed store for its finalisation, funds still escrowed
+			p.Status, p.Outcome, state = governance.ProposalStatusCompleted, governance.ProposalOutcomeCompletedYes, governance.ProposalStatePassed
+		case 8: // finalised: the funds have been distributed, no fund record is left
+			p.Status, p.Outcome, state = governance.ProposalStatusCompleted, governance.ProposalOutcomeCompletedYes, governance.ProposalStateFinalized
 		}
 		if err := pm.Proposal.WithPrefixType(state).Set(p); err != nil {
 			sv.Unreachable("proposal setup")
 		}
 		total := new(big.Int)
 		for i := 0; i < e.n; i++ {
+			if pre.where == 8 {
+				pre.funds = append(pre.funds, new(big.Int))
+				continue
+			}
 			f := svNonNeg("prop.funds" + svPartyName(i))
 			pre.funds = append(pre.funds, f)
 			total.Add(total, f)
@@ -93,7 +105,7 @@ func svPreGov(pre *svPropPre) func(e *svEnv) {
 			sv.Assume(cur.BigInt().Cmp(pre.goal) < 0)
 		}
 		// ... and one that went to voting (and then expired or was voted down) has reached it
-		if pre.where == 2 || pre.where == 5 || pre.where == 6 {
+		if pre.where == 2 || pre.where == 5 || pre.where == 6 || pre.where == 7 {
 			cur := pm.ProposalFund.GetCurrentFundsForProposal(svPropID)
 			sv.Assume(cur.BigInt().Cmp(pre.goal) >= 0)
 		}
@@ -131,12 +143,25 @@ func svPropStage(e *svEnv, id governance.ProposalID) (*governance.Proposal, gove
 	return p, st
 }
 
+// svPropCopies: in how many stage stores the id has a record.
+func svPropCopies(e *svEnv, id governance.ProposalID) int {
+	pm := e.app.Context.proposalMaster.WithState(e.app.Context.deliver)
+	n := 0
+	for _, st := range []governance.ProposalState{governance.ProposalStateActive, governance.ProposalStatePassed, governance.ProposalStateFailed,
+		governance.ProposalStateFinalized, governance.ProposalStateFinalizeFailed} {
+		if _, err := pm.Proposal.WithPrefixType(st).Get(id); err == nil {
+			n++
+		}
+	}
+	return n
+}
+
 // SV_C14_funds_and_stage: one create / fund / withdraw-funds / cancel
 // transaction from an arbitrary proposal record.
 //
-// sv:bounds proposal absent, or funding / voting in the active store, or cancelled / under-funded / expired in voting / voted down in the failed store; arbitrary proposer among 2 parties, funding goal, funding deadline (any relation to the block height 20), per-funder contributions (present or absent); kind a choice; actor (proposer / funder field, who signs) any party, beneficiary any party; amounts any integer in {OLT, unregistered}; the shared proposal store's selected stage prefix (in-memory residue) active or failed; mempool-admitted regime
+// sv:bounds proposal absent, or funding / voting in the active store, or cancelled / under-funded / expired in voting / voted down in the failed store, or voted yes in the passed store, or finalised (funds distributed) in the finalized store; arbitrary proposer among 2 parties, funding goal, funding deadline (any relation to the block height 20), per-funder contributions (present or absent); kind a choice; actor (proposer / funder field, who signs) any party, beneficiary any party; amounts any integer in {OLT, unregistered}; the shared proposal store's selected stage prefix (in-memory residue) active or failed; mempool-admitted regime
 // sv:outside vote, expire and finalise (the tally and the fund distribution are not yet encoded); configuration-update proposals; histories
-// sv:goal stage moves only forward: fund never moves a proposal that is not funding or is past its deadline, and moves it to voting exactly when the contributions reach the goal; cancel only by the proposer, only while funding and before the deadline, moves it to the failed store as cancelled; withdraw only from a cancelled or under-funded (deadline passed, goal not met) proposal, at most the funder's own contribution, debiting the escrow by exactly what the beneficiary receives; the total record stays the sum of the contributions; create only for an id without a record in any stage store, escrowing exactly the initial funding
+// sv:goal a proposal has a record in one stage store only and a completed one keeps its store, status and outcome whatever the transaction; stage moves only forward: fund never moves a proposal that is not funding or is past its deadline, and moves it to voting exactly when the contributions reach the goal; cancel only by the proposer, only while funding and before the deadline, moves it to the failed store as cancelled; withdraw only from a cancelled or under-funded (deadline passed, goal not met) proposal, at most the funder's own contribution, debiting the escrow by exactly what the beneficiary receives; the total record stays the sum of the contributions; create only for an id without a record in any stage store, escrowing exactly the initial funding
 func SV_C14_funds_and_stage() {
 	svCurrencyLimit = 2
 	pre := &svPropPre{}
@@ -156,6 +181,10 @@ func SV_C14_funds_and_stage() {
 	for _, tag := range []string{"1", "2"} {
 		sum := new(big.Int).Add(r.after.get("propFunds:"+tag+":A"), r.after.get("propFunds:"+tag+":B"))
 		sv.Assert(r.after.get("propFunds:"+tag+":total").Cmp(sum) == 0, "total-funds-record-equals-the-sum-of-contributions")
+	}
+	sv.Assert(svPropCopies(e, svPropID) <= 1, "a-proposal-has-a-record-in-one-stage-store-only")
+	if p0 != nil && p0.Status == governance.ProposalStatusCompleted {
+		sv.Assert(p1 != nil && st1 == st0 && p1.Status == p0.Status && p1.Outcome == p0.Outcome, "a-completed-proposal-keeps-its-stage-and-outcome")
 	}
 	if !ok {
 		sv.Assert(st1 == st0, "failed-tx-does-not-move-the-proposal")
@@ -190,7 +219,7 @@ func SV_C14_funds_and_stage() {
 		sv.Assert(p0 != nil, "withdraw-needs-a-proposal")
 		if p0 != nil {
 			eligible := p0.Outcome == governance.ProposalOutcomeCancelled || p0.Outcome == governance.ProposalOutcomeInsufficientFunds ||
-				(r.before.get("propFunds:1:total").Cmp(pre.goal) < 0 && height > p0.FundingDeadline)
+				(st0 == governance.ProposalStateActive && p0.Status == governance.ProposalStatusFunding && r.before.get("propFunds:1:total").Cmp(pre.goal) < 0 && height > p0.FundingDeadline)
 			sv.Assert(eligible, "withdraw-only-from-a-cancelled-or-under-funded-proposal")
 		}
 		out := new(big.Int).Neg(d("propFunds:1:" + an))
